@@ -117,6 +117,7 @@ type Frame struct {
 	inDup      bool
 	callOrd    map[string]int             // call sites seen so far, per callee name (atcall callee#k)
 	ghostHdr   map[string]*ssa.BasicBlock // loop ghost variable -> header of its loop
+	dbgBlk     map[string][]*ssa.BasicBlock // the block of each entry of dbg (where the name was assigned)
 	dbg        map[string][]ssa.Value     // source names of plain SSA values (from DebugRef), in execution order
 }
 
@@ -729,6 +730,10 @@ func (f *Frame) execInstr(ins ssa.Instruction, reach string, h *Heap) string {
 				f.dbg = map[string][]ssa.Value{}
 			}
 			f.dbg[id.Name] = append(f.dbg[id.Name], i.X)
+			if f.dbgBlk == nil {
+				f.dbgBlk = map[string][]*ssa.BasicBlock{}
+			}
+			f.dbgBlk[id.Name] = append(f.dbgBlk[id.Name], i.Block())
 		}
 	case *ssa.Alloc:
 		et := i.Type().(*types.Pointer).Elem()
